@@ -305,7 +305,7 @@ func (w *srvWorld) genConn(i int, dialled, late bool) *peerConn {
 		if cfg.table {
 			// include applications that fall back to the base dictionary
 			if t.Chance(1, 4) {
-				m.App = []uint32{1001, 1002, 4242}[t.Draw(3)]
+				m.App = []uint32{1001, 1002, 4242, 0xffffffff}[t.Draw(4)]
 				m.Cmd = []uint32{900, 901, 910, 280}[t.Draw(4)]
 			}
 			isReq = t.Chance(1, 2)
@@ -1234,7 +1234,7 @@ func sortedStrKeys(m map[string]string) []string {
 	return ks
 }
 
-var c09IdxCands = [][2]uint32{{0, 900}, {0, 901}, {0, 280}, {1001, 900}, {1001, 910}, {1002, 910}, {1001, 901}, {1002, 900}, {4242, 900}, {0, 910}}
+var c09IdxCands = [][2]uint32{{0, 900}, {0, 901}, {0, 280}, {1001, 900}, {1001, 910}, {1002, 910}, {1001, 901}, {1002, 900}, {4242, 900}, {0, 910}, {0xffffffff, 900}, {0xffffffff, 901}}
 var c09Names = []string{"XA", "XB", "DW", "YA", "YC", "ZC", "CE"}
 
 func (w *srvWorld) snapshot() {
